@@ -21,6 +21,15 @@ def _one(args):
         if any(e['kind'] in ('WormGear',) for e in elems[1:]) and rnd.random() < 0.7:
             continue                                    # mostly gear trains; worm stages only when not self-locking
         m = elems[0]
+        # an efficiency sweep on a live model: in a third of the cases one gear mating is re-declared with another efficiency AFTER the
+        # Solver exists and before it runs (the closed form is that of the chain as declared at run time)
+        geared = [j for j in range(1, len(elems)) if elems[j]['rel']['type'] == 'gear']
+        redecl = None
+        if geared and i % 3 == 0:
+            j = rnd.choice(geared)
+            redecl = {'op': 'redeclare', 'i': j, 'arg': solver_gen.sig(rnd.uniform(0.4, 1))}
+            first_eta = elems[j]['rel']['arg']
+            elems[j]['rel'] = dict(elems[j]['rel'], arg=redecl['arg'])       # k below is computed for the final declaration
         if m['i0'] is not None:
             dz = float(m['i0']) / float(m['imax'])
             D = rnd.choice([F(1), F(1), solver_gen.sig(rnd.uniform(dz * 1.5 + 0.05, 1), 3), -solver_gen.sig(rnd.uniform(dz * 1.5 + 0.05, 1), 3)])
@@ -54,9 +63,14 @@ def _one(args):
         for h in HS[:nruns]:
             dt = F(float(h / k))
             n = int(4 / h)
-            inst = {'elems': elems, 'load': {'c0': L, 'c1': F(0), 'c2': F(0), 'c3': F(0), 'ts': F(10**9), 'cs': F(0)}, 'ctrls': [], 'stops': [],
-                    'ops': [{'op': 'set_initial', 'pos': F(0), 'spd': w0}, {'op': 'set_pwm', 'v': D}, {'op': 'new_solver', 'sid': 1},
-                            {'op': 'run', 'sid': 1, 'dt': dt, 'T': dt * n, 'dt_unit': 'sec' if units is None else rnd.choice(solver_gen.TIME_UNITS),
+            import copy
+            el2 = copy.deepcopy(elems)
+            if redecl is not None:
+                el2[redecl['i']]['rel']['arg'] = first_eta                     # built with the first efficiency ...
+            inst = {'elems': el2, 'load': {'c0': L, 'c1': F(0), 'c2': F(0), 'c3': F(0), 'ts': F(10**9), 'cs': F(0)}, 'ctrls': [], 'stops': [],
+                    'ops': [{'op': 'set_initial', 'pos': F(0), 'spd': w0}, {'op': 'set_pwm', 'v': D}, {'op': 'new_solver', 'sid': 1}] +
+                           ([dict(redecl)] if redecl is not None else []) +                # ... re-declared once the Solver exists
+                           [{'op': 'run', 'sid': 1, 'dt': dt, 'T': dt * n, 'dt_unit': 'sec' if units is None else rnd.choice(solver_gen.TIME_UNITS),
                              'T_unit': 'sec' if units is None else rnd.choice(solver_gen.TIME_UNITS)}]}
             try:
                 tr = solver_rec.execute(f'c{i}h{h.denominator}', inst, None if units is None else random.Random(seed + i))
